@@ -184,6 +184,27 @@ def r_loader_agreement(P, rep, ctx, rule):
                       message=f"{c.name}.__init__ does not rebuild {tb} for every stored entry: the reloaded index differs from the incrementally maintained one")
         for nm, later, loop in loop_locals_used_after(init):
             rep.fail(rule, init.qual, f"{nm} used after its loop: {norm(later)[:80]}", f"`{norm(later)[:80]}` uses `{nm}`, which is bound per entry inside the loop `for {norm(loop.target)} in {norm(loop.iter)}`, after that loop: only the last entry is processed (per-entry bookkeeping is lost on reopen)", init.loc(later))
+    # the per-package usage table is rebuilt completely: an (empty) entry for every stored package, and every stored schema
+    # counted under each of its providers (the incremental _register / _unregister keep exactly this)
+    ti0 = F(ctx, ts.methods["__init__"])
+    g0 = ti0.g
+    pk_loops = [n for n in g0.nodes if n.kind == "for" and isinstance(n.stmt.target, ast.Name) and ti0.x(n.stmt.iter) in ("self._pkgs.keys()", "self._pkgs", "toc_packages.keys()", "toc_packages")]
+    init_ok = False
+    for n in pk_loops:
+        sts = [i for i, v, b in ti0.stores(f"self._used[{n.stmt.target.id}]") if norm(v) in ("set()", "set([])")]
+        init_ok = init_ok or (bool(sts) and ti0.hit_before(n.idx, nodes=sts, src_edge=(n.idx, "iter")) and ti0.hit_before(g0.exit, nodes=[n.idx]))
+    comp_init = [i for i, v, b in ti0.stores("self._used") if isinstance(v, ast.DictComp) and norm(v.value) in ("set()",) and ti0.x(v.generators[0].iter) in ("self._pkgs.keys()", "self._pkgs")]
+    rep.check(init_ok or bool(comp_init), rule, ts.methods["__init__"].qual, "every stored package gets its (empty) usage entry when the container is opened", ts.methods["__init__"].loc(), construct="loader initialises _used per package",
+              message="TOCSchemas.__init__ does not create a usage entry for every stored package: after reopening, registering / unregistering a schema of that package fails or the package record is never removed")
+    prov_loops = [n for n in g0.nodes if n.kind == "for" and isinstance(n.stmt.target, ast.Name) and M.match("self._pkgs._providers[__s]", ti0.xe_at(n.idx, n.stmt.iter)) is not None]
+    add_ok = False
+    for n in prov_loops:
+        sref = M.match("self._pkgs._providers[__s]", ti0.xe_at(n.idx, n.stmt.iter))["__s"]
+        adds = ti0.calls(f"self._used[{n.stmt.target.id}].add({norm(sref)})")
+        add_ok = add_ok or (bool(adds) and ti0.hit_before(n.idx, nodes=adds, src_edge=(n.idx, "iter")))
+    rep.check(add_ok, rule, ts.methods["__init__"].qual, "every stored schema is counted under each of its providing packages when the container is opened", ts.methods["__init__"].loc(), construct="loader counts _used per provider",
+              message="TOCSchemas.__init__ does not count each stored schema under its providing packages: after reopening, deleting one object drops the package record other stored schemas still need")
+
     # path helpers agree between writer and loader
     def ret_of(fn):
         ff = F(ctx, fn)
